@@ -26,7 +26,7 @@ Rng(s) == {s[i] : i \in 1..Len(s)}
 
 TReset == /\ IsEvent("reset")
           /\ stored' = {} /\ blind' = {} /\ revs' = {} /\ trust' = InitTrust /\ keys' = InitKeys /\ ctxUp' = FALSE
-          /\ jobs' = [t \in Tx |-> "none"] /\ why' = [t \in Tx |-> ""] /\ replay' = {}
+          /\ jobs' = [t \in Tx |-> "none"] /\ why' = [t \in Tx |-> ""] /\ replay' = {} /\ pend' = {}
           /\ restarts' = 0 /\ reprocs' = 0 /\ faults' = 0 /\ tops' = 0
           /\ pcfg' = [keys |-> "", icomm |-> ""] /\ pubs' = <<>>
           /\ last' = [a |-> "reset", t |-> "", res |-> ""] /\ hist' = <<>>
@@ -34,11 +34,15 @@ TReset == /\ IsEvent("reset")
 \* an acknowledged call carries no error text: the logged class is "ok"
 ResMatch(o, r, cx) == IF o \in AckClassesV(cx) THEN r = "ok" ELSE r = o
 
+\* possible outcomes of a call: where an id is bound to several contents already, the look-up returns any of them, so a
+\* re-delivered member is "already there" or "other content"
+Outs(t, f, v) == IF t \in CredTx
+                 THEN (IF Cardinality(Holder(C[t].id)) > 1 /\ C[t].fmt = "ld" THEN {"dup", "conflict"} ELSE {CredOutcomeV(t, f, v)})
+                 ELSE {RevOutcome(t, f)}
 \* one call of a receiver: the logged class of the answer and the job state it left
 TCall(name) ==
-    \E v, tr, uk, cx \in BOOLEAN :
-        LET t == Ev.t
-            o == IF t \in CredTx THEN CredOutcomeV(t, Ev.f, v) ELSE RevOutcome(t, Ev.f) IN
+    \E v, tr, uk, cx \in BOOLEAN : \E o \in Outs(Ev.t, Ev.f, v) :
+        LET t == Ev.t IN
         /\ ResMatch(o, Ev.res, cx)
         /\ JobAfterV(o, tr, uk, cx) = Ev.job
         /\ Apply(t, o)
@@ -51,13 +55,12 @@ TDeliver == IsEvent("deliver") /\ Ev.t \in Tx /\ Running /\ jobs[Ev.t] = "none" 
 \* (the retry goroutine of one notifier may run while the start-up replay of the other one is still busy)
 TRetry == IsEvent("retry") /\ Ev.t \in Tx /\ Mode = "recv" /\ Ev.t \notin replay /\ jobs[Ev.t] = "retry" /\ TCall("Retry") /\ UNCHANGED replay
 TReplay == IsEvent("replay") /\ Ev.t \in replay /\ TCall("Replay") /\ replay' = replay \ {Ev.t}
-TRestart == /\ IsEvent("restart") /\ Running
+TRestart == /\ IsEvent("restart") /\ Running /\ pend = {}
             /\ replay' = {t \in Tx : jobs[t] \in {"retry", "dead"} /\ why[t] # "ctxdenied"}
             /\ last' = [a |-> "Restart", t |-> "", res |-> ""]
             /\ UNCHANGED <<stored, blind, revs, trust, keys, ctxUp, jobs, why, restarts, reprocs, faults, tops, pcfg, pubs, hist>>
 TReprocess == /\ IsEvent("reprocess") /\ Ev.t \in Tx /\ Running /\ Delivered(Ev.t)
-              /\ \E v \in BOOLEAN :
-                    LET o == IF Ev.t \in CredTx THEN CredOutcomeV(Ev.t, FALSE, v) ELSE RevOutcome(Ev.t, FALSE) IN
+              /\ \E v \in BOOLEAN : \E o \in Outs(Ev.t, FALSE, v) :
                     ResMatch(o, Ev.res, FALSE) /\ Apply(Ev.t, o) /\ last' = [a |-> "Reprocess", t |-> Ev.t, res |-> o]
               /\ UNCHANGED <<trust, keys, ctxUp, jobs, why, replay, restarts, reprocs, faults, tops, pcfg, pubs, hist>>
 TTrust == /\ (IsEvent("trust") \/ IsEvent("untrust")) /\ Running /\ Ev.i \in Issuers
@@ -72,9 +75,28 @@ TCtxUp == /\ IsEvent("ctxup") /\ Running /\ ctxUp' = TRUE
           /\ last' = [a |-> "CtxUp", t |-> "", res |-> ""]
           /\ UNCHANGED <<stored, blind, revs, trust, keys, jobs, why, replay, restarts, reprocs, faults, tops, pcfg, pubs, hist>>
 
+\* a handler call split at the point where StoreCredential is not atomic (the driver holds the call there)
+TBegin == /\ IsEvent("begin") /\ Ev.t \in Split /\ Running /\ jobs[Ev.t] = "none"
+          /\ \E v \in BOOLEAN : CredOutcomeV(Ev.t, FALSE, v) = "stored"
+          /\ pend' = pend \cup {Ev.t} /\ jobs' = [jobs EXCEPT ![Ev.t] = "busy"]
+          /\ last' = [a |-> "Begin", t |-> Ev.t, res |-> ""]
+          /\ UNCHANGED <<stored, blind, revs, trust, keys, ctxUp, why, replay, restarts, reprocs, faults, tops, pcfg, pubs, hist>>
+TFinish == /\ IsEvent("finish") /\ Ev.t \in pend
+           /\ \E atomic, tr, uk, cx \in BOOLEAN :
+                LET o == IF atomic THEN CredOutcomeV(Ev.t, FALSE, FALSE) ELSE "stored" IN
+                /\ ResMatch(o, Ev.res, cx) /\ JobAfterV(o, tr, uk, cx) = Ev.job
+                /\ Apply(Ev.t, o)
+                /\ jobs' = [jobs EXCEPT ![Ev.t] = Ev.job] /\ why' = [why EXCEPT ![Ev.t] = o]
+                /\ last' = [a |-> "Finish", t |-> Ev.t, res |-> o]
+           /\ pend' = pend \ {Ev.t}
+           /\ UNCHANGED <<trust, keys, ctxUp, replay, restarts, reprocs, faults, tops, pcfg, pubs, hist>>
+
 \* everything a caller can observe equals the observation function of the model
 ObsMatch ==
-    /\ \A id \in DOMAIN Ev.resolve : ResolveAns(id).cls = Ev.resolve[id].cls /\ ResolveAns(id).c = Ev.resolve[id].c
+    /\ \A id \in DOMAIN Ev.resolve :
+          IF Cardinality(Holder(id)) > 1       \* (an id bound to several contents: the store answers with any of them)
+          THEN Ev.resolve[id].c \in Holder(id) \cup {""}
+          ELSE ResolveAns(id).cls = Ev.resolve[id].cls /\ ResolveAns(id).c = Ev.resolve[id].c
     /\ {id \in DOMAIN Ev.resolve : Revoked(id)} = Rng(Ev.revoked)
     /\ SearchAns(FALSE) = Rng(Ev.search) /\ SearchAns(TRUE) = Rng(Ev.searchAll)
     /\ trust = Rng(Ev.trusted) /\ UntrustedAns = Rng(Ev.untrusted)
@@ -90,8 +112,9 @@ Shown(e) == /\ e.ok = Ev.ok
 TIssue == IsEvent("issue") /\ PubIssue(Ev.s, Ev.public) /\ Shown(pubs'[Len(pubs')])
 TRevoke == IsEvent("revoke") /\ PubRevoke /\ Shown(pubs'[Len(pubs')])
 
-TraceNext == TReset \/ TDeliver \/ TRetry \/ TReplay \/ TRestart \/ TReprocess \/ TTrust \/ TLearn \/ TCtxUp \/ TObs
-             \/ TConfig \/ TIssue \/ TRevoke
+TraceNext == \/ TReset \/ TBegin \/ TFinish \/ TObs \/ TIssue \/ TRevoke
+             \/ /\ UNCHANGED pend
+                /\ \/ TDeliver \/ TRetry \/ TReplay \/ TRestart \/ TReprocess \/ TTrust \/ TLearn \/ TCtxUp \/ TConfig
 TraceInit == Init /\ l = 1 /\ TLCSet(1, 1)
 TraceSpec == TraceInit /\ [][TraceNext]_tvars
 
